@@ -69,15 +69,18 @@ Record pstate := {
   pmain : mpc;
   pmtok : bool;                (* the token of the main thread's parker *)
   pnet : Z;                    (* ghost: messages sent minus messages received, all threads, ever *)
-  ppanic : nat;                (* ghost: assert_ne! in try_set_worker_inactive failed *)
-  preads : list (Z * Z)        (* ghost: (msg_count read by run(), ghost net at that moment), newest first *)
+  ppanic : nat;                (* ghost: a failed assertion (try_set_worker_inactive: own bit set; steal: fast slot empty) *)
+  preads : list (Z * Z);       (* ghost: (msg_count read by run(), ghost net at that moment), newest first *)
+  psched : nat;                (* ghost: tasks spawned or woken (made runnable), ever *)
+  pran : nat                   (* ghost: tasks taken from the fast slot / local queue and run, ever *)
 }.
 
 Definition wdef : pworker :=
   {| wpc := WPost [BPark]; wact := false; wtok := false; wlq := 0; wslot := false; whand := 0; wcnt := 0 |}.
 
 Definition p_init (n : nat) : pstate :=
-  {| pws := repeat wdef n; pinj := 0; pmsg := 0; pmain := MIdle; pmtok := false; pnet := 0; ppanic := 0; preads := [] |}.
+  {| pws := repeat wdef n; pinj := 0; pmsg := 0; pmain := MIdle; pmtok := false; pnet := 0; ppanic := 0; preads := [];
+     psched := 0; pran := 0 |}.
 
 Definition W (s : pstate) (j : nat) : pworker := nth j (pws s) wdef.
 
@@ -98,29 +101,36 @@ Definition set_cnt (w : pworker) (c : Z) : pworker :=
 
 Definition set_ws (s : pstate) (l : list pworker) : pstate :=
   {| pws := l; pinj := pinj s; pmsg := pmsg s; pmain := pmain s; pmtok := pmtok s; pnet := pnet s;
-     ppanic := ppanic s; preads := preads s |}.
+     ppanic := ppanic s; preads := preads s; psched := psched s; pran := pran s |}.
 Definition set_w (s : pstate) (j : nat) (w : pworker) : pstate := set_ws s (lupd (pws s) j w).
 Definition set_inj (s : pstate) (n : nat) : pstate :=
   {| pws := pws s; pinj := n; pmsg := pmsg s; pmain := pmain s; pmtok := pmtok s; pnet := pnet s;
-     ppanic := ppanic s; preads := preads s |}.
+     ppanic := ppanic s; preads := preads s; psched := psched s; pran := pran s |}.
 Definition set_msg (s : pstate) (m : Z) : pstate :=
   {| pws := pws s; pinj := pinj s; pmsg := m; pmain := pmain s; pmtok := pmtok s; pnet := pnet s;
-     ppanic := ppanic s; preads := preads s |}.
+     ppanic := ppanic s; preads := preads s; psched := psched s; pran := pran s |}.
 Definition set_main (s : pstate) (m : mpc) : pstate :=
   {| pws := pws s; pinj := pinj s; pmsg := pmsg s; pmain := m; pmtok := pmtok s; pnet := pnet s;
-     ppanic := ppanic s; preads := preads s |}.
+     ppanic := ppanic s; preads := preads s; psched := psched s; pran := pran s |}.
 Definition set_mtok (s : pstate) (b : bool) : pstate :=
   {| pws := pws s; pinj := pinj s; pmsg := pmsg s; pmain := pmain s; pmtok := b; pnet := pnet s;
-     ppanic := ppanic s; preads := preads s |}.
+     ppanic := ppanic s; preads := preads s; psched := psched s; pran := pran s |}.
 Definition set_net (s : pstate) (z : Z) : pstate :=
   {| pws := pws s; pinj := pinj s; pmsg := pmsg s; pmain := pmain s; pmtok := pmtok s; pnet := z;
-     ppanic := ppanic s; preads := preads s |}.
+     ppanic := ppanic s; preads := preads s; psched := psched s; pran := pran s |}.
 Definition add_panic (s : pstate) : pstate :=
   {| pws := pws s; pinj := pinj s; pmsg := pmsg s; pmain := pmain s; pmtok := pmtok s; pnet := pnet s;
-     ppanic := S (ppanic s); preads := preads s |}.
+     ppanic := S (ppanic s); preads := preads s; psched := psched s; pran := pran s |}.
 Definition add_read (s : pstate) : pstate :=
   {| pws := pws s; pinj := pinj s; pmsg := pmsg s; pmain := pmain s; pmtok := pmtok s; pnet := pnet s;
-     ppanic := ppanic s; preads := (pmsg s, pnet s) :: preads s |}.
+     ppanic := ppanic s; preads := (pmsg s, pnet s) :: preads s; psched := psched s; pran := pran s |}.
+
+Definition add_sched (s : pstate) : pstate :=
+  {| pws := pws s; pinj := pinj s; pmsg := pmsg s; pmain := pmain s; pmtok := pmtok s; pnet := pnet s;
+     ppanic := ppanic s; preads := preads s; psched := S (psched s); pran := pran s |}.
+Definition add_ran (s : pstate) : pstate :=
+  {| pws := pws s; pinj := pinj s; pmsg := pmsg s; pmain := pmain s; pmtok := pmtok s; pnet := pnet s;
+     ppanic := ppanic s; preads := preads s; psched := psched s; pran := S (pran s) |}.
 
 Definition acts (s : pstate) : list bool := map wact (pws s).
 Definition all_inactive (l : list bool) : bool := forallb negb l.
@@ -196,7 +206,8 @@ Definition worker_step (B : barrier) (s : pstate) (j : nat) (w : pworker) (c : p
       | PSteal v k =>
           if Nat.eqb v j then None else
           match nth_error (pws s) v with
-          | Some x => if (1 <=? k) && (k <=? wlq x)
+          | Some x => if wslot w then Some (add_panic s)    (* assert!(prev_task.is_none()) *)
+                      else if (1 <=? k) && (k <=? wlq x)
                       then let s1 := set_w s v (set_lq x (wlq x - k)) in
                            Some (set_w s1 j (set_pc (set_slot (set_lq w (wlq w + (k - 1))) true) WRun))
                       else None
@@ -207,16 +218,16 @@ Definition worker_step (B : barrier) (s : pstate) (j : nat) (w : pworker) (c : p
       end
   | WExt => Some (set_w s j (set_pc (set_hand (set_lq w (wlq w + whand w)) 0) WRun))
   | WRun =>
-      if wslot w then Some (set_w s j (set_pc (set_slot w false) WTask))
+      if wslot w then Some (add_ran (set_w s j (set_pc (set_slot w false) WTask)))
       else match wlq w with
-           | S n => Some (set_w s j (set_pc (set_lq w n) WTask))
+           | S n => Some (add_ran (set_w s j (set_pc (set_lq w n) WTask)))
            | O => Some (set_w s j (set_pc w WSearch))
            end
   | WTask =>
       match c with
       | PCnt d => Some (set_net (set_w s j (set_cnt w (wcnt w + d))) (pnet s + d))
-      | PWake => if wslot w then Some (set_w s j (set_pc (set_hand w (S (whand w))) WSched1))
-                 else Some (set_w s j (set_slot w true))
+      | PWake => if wslot w then Some (add_sched (set_w s j (set_pc (set_hand w (S (whand w))) WSched1)))
+                 else Some (add_sched (set_w s j (set_slot w true)))
       | PDone => Some (set_w s j (set_pc w WRun))
       | _ => None
       end
@@ -280,7 +291,7 @@ Definition p_step (B : barrier) (s : pstate) (l : plabel) : option pstate :=
   match l with
   | LW j c => match nth_error (pws s) j with Some w => worker_step B s j w c | None => None end
   | LM => main_step s
-  | LSpawn => match pmain s with MIdle => Some (set_inj s (S (pinj s))) | _ => None end
+  | LSpawn => match pmain s with MIdle => Some (add_sched (set_inj s (S (pinj s)))) | _ => None end
   | LRunCall => match pmain s with MIdle => Some (set_main s (MAct (acts s))) | _ => None end
   end.
 
